@@ -14,7 +14,7 @@ use crate::ctx::*;
 use crate::sched::{Sched, SchedStats, SITE_OP};
 use crate::spec::*;
 
-pub const N_SLOTS: usize = 16;
+pub const N_SLOTS: usize = 72;
 /// slot of the second mock's original (C18)
 pub const SLOT_MOCK2: u8 = 8;
 
@@ -286,7 +286,32 @@ fn exec_op(
             end_op(run, tid, idx, start, res, None, None);
             Ok(())
         }
-        Op::Drop { slot } | Op::Verify { slot } | Op::Report { slot } | Op::NoVerifyInDrop { slot } => {
+        Op::CloneStorm { slot, n } => {
+            let mock = mock_of(run, *slot);
+            let start = begin_op(run, tid, idx, None, mock);
+            let res = match get_slot(run, *slot) {
+                None => OpResult::Skipped("slot empty".into()),
+                Some(h) => {
+                    // one scheduling unit: the storm is about numbers, not about interleavings
+                    let r = {
+                        let _one_unit = unimock::verif::CriticalGuard::enter();
+                        catch_unwind(AssertUnwindSafe(|| {
+                            for _ in 0..*n {
+                                drop((*h).clone());
+                            }
+                        }))
+                    };
+                    release_handle(run, *slot, h);
+                    match r {
+                        Ok(()) => OpResult::Done,
+                        Err(p) => panic_text(p.as_ref()),
+                    }
+                }
+            };
+            end_op(run, tid, idx, start, res, None, None);
+            Ok(())
+        }
+        Op::Drop { slot } | Op::Verify { slot } | Op::Report { slot } | Op::NoVerifyInDrop { slot } | Op::UnwindDrop { slot } => {
             let mock = mock_of(run, *slot);
             let start = begin_op(run, tid, idx, None, mock);
             match take_unique(run, *slot) {
@@ -299,6 +324,14 @@ fn exec_op(
                             Ok(()) => OpResult::Quiet,
                             Err(p) => panic_text(p.as_ref()),
                         },
+                        Op::UnwindDrop { .. } => {
+                            // (a second panic from the drop would abort the process)
+                            let _ = catch_unwind(AssertUnwindSafe(move || {
+                                let _owned_by_this_frame = u;
+                                resume_unwind(Box::new(UserFault::Body));
+                            }));
+                            OpResult::Quiet
+                        }
                         Op::Verify { .. } => match catch_unwind(AssertUnwindSafe(move || u.verify())) {
                             Ok(()) => OpResult::Quiet,
                             Err(p) => panic_text(p.as_ref()),
@@ -522,6 +555,7 @@ pub fn run(scn: &Scenario) -> RunResult {
         step: AtomicU64::new(0),
         inv: AtomicU64::new(0),
         record_matchers: scn.knob("record_matchers").unwrap_or(0) != 0,
+        max_depth: scn.knob("max_depth").map(|d| d as usize).unwrap_or(MAX_DEPTH),
         slots: (0..N_SLOTS).map(|_| Mutex::new(None)).collect(),
         slot_mock: (0..N_SLOTS).map(|_| AtomicU64::new(0)).collect(),
         tracker: crate::values::Tracker::new(),
